@@ -25,6 +25,7 @@ type genParams struct {
 	PCancel   float64
 	PNil      float64
 	PEres     float64
+	PBig      float64 // probability that a retryable leaf gets a budget beyond 32 bits
 	PZero     float64 // probability that a leaf is a zero-size node type (all of them share one address)
 	PDyn      float64 // probability that a post callback makes one of the pending Connect calls (dynamic wiring)
 	PPanic    float64 // probability that a prep / exec / post callback panics
@@ -155,12 +156,16 @@ func genEngineCfg(r *rand.Rand, p genParams) EngineCfg {
 			n.Retry, n.Fb = true, r.Intn(2) == 0
 			n.N = 1 + r.Intn(p.MaxN)
 		}
+		if p.PBig > 0 && n.Retry && n.Kind == "leaf" && r.Float64() < p.PBig {
+			n.Big = 1 + r.Intn(len(bigBudgets)-1)
+			n.N = bigStandIn
+		}
 		c.Nodes = append(c.Nodes, n)
 	}
 	nActs := 1 + r.Intn(5)
 	// the default action and a random choice of the others (case variants, prefixes of each other, blank-looking names)
 	c.Acts = append(c.Acts, 1)
-	others := []int{2, 3, 4, 5, 6, 7, 8}
+	others := []int{2, 3, 4, 5, 6, 7, 8, 9, 10, 11}
 	r.Shuffle(len(others), func(i, j int) { others[i], others[j] = others[j], others[i] })
 	c.Acts = append(c.Acts, others[:nActs-1]...)
 	members := map[int][]int{}
@@ -192,6 +197,16 @@ func genEngineCfg(r *rand.Rand, p genParams) EngineCfg {
 			fn = 2 + r.Intn(2)
 		}
 		c.Nodes = append(c.Nodes, NodeCfg{Kind: "flow", Retry: true, N: fn, Sty: []string{"-", "-", "-"}, Start: start})
+		if p.Mode == "recur" {
+			// a flow may contain itself, or a flow that contains it: a step (never the start) of flow id is flow id again or an
+			// enclosing one; the recursion ends when the actions of a later visit lead elsewhere
+			if r.Intn(3) != 0 {
+				members[id] = append(members[id], id)
+			}
+			if j+1 < nFlows && r.Intn(2) == 0 {
+				members[id] = append(members[id], id+1+r.Intn(nFlows-j-1))
+			}
+		}
 	}
 	c.Top = len(c.Nodes)
 	c.Runs = 1 + r.Intn(p.MaxRuns)
@@ -268,9 +283,11 @@ func paramsFor(mode string) genParams {
 	switch mode {
 	case "plain": // successful paths with retries and fallbacks
 		p.PExecErr, p.PFbErr, p.PEres = 0.35, 0.0, 0.15
+		p.PBig = 0.12
 	case "single": // one node, everything can fail
 		p.MaxLeaves, p.MaxFlows, p.MaxRuns, p.MaxN = 1, 0, 3, 8 // up to three runs of the same node object
 		p.PPrepErr, p.PExecErr, p.PFbErr, p.PPostErr, p.PNil, p.PEres = 0.08, 0.6, 0.4, 0.1, 0.15, 0.2
+		p.PBig = 0.1
 	case "flowretry": // flows with a retry budget of their own: a failing sub-flow is executed again from its start
 		p.MaxFlows, p.MaxLeaves, p.MaxRuns, p.MaxVisits = 3, 4, 1, 10
 		p.PExecErr, p.PFbErr, p.PPostErr = 0.45, 0.5, 0.05
@@ -307,6 +324,9 @@ func paramsFor(mode string) genParams {
 		p.PBLeaf = 0.75
 		p.MaxFlows, p.MaxLeaves, p.MaxRuns = 2, 4, 2
 		p.PExecErr, p.PCancel = 0.3, 0.1
+	case "recur": // flows that contain themselves, directly or through another flow
+		p.MaxFlows, p.MaxLeaves, p.MaxRuns, p.MaxVisits = 3, 4, 2, 12
+		p.PExecErr, p.PFbErr = 0.15, 0.3
 	case "nest": // deep hierarchies, no failures
 		p.MaxFlows, p.MaxLeaves = 5, 6
 		p.PExecErr = 0.1
@@ -341,7 +361,7 @@ func keysOfHistory(evs []Event) []skey {
 
 // scriptForGenerated rebuilds the script of a generated scenario from its configuration
 func scriptForGenerated(cfg EngineCfg) Script {
-	if cfg.GenMode == "longloop" {
+	if cfg.GenMode == "longloop" || cfg.GenMode == "hugeloop" {
 		var rounds int
 		fmt.Sscanf(cfg.GenSeed, "%d", &rounds)
 		return longLoopScript{rounds}
@@ -395,6 +415,14 @@ func genEngineScenarios(seed int64, count int, mode string, emit func(cfg Engine
 		cfg := longLoopCfg(1005)
 		evs, _ := runEngineScenario(cfg, scriptForGenerated(cfg))
 		emit(cfg, "gen:longloop", evs)
+		return
+	}
+	if mode == "hugeloop" {
+		// the same body for more rounds than a 16-bit counter holds; the callbacks are counted, not kept
+		cfg := longLoopCfg(70000 + int(seed%7))
+		cfg.GenMode = "hugeloop"
+		evs, _ := runEngineScenario(cfg, scriptForGenerated(cfg))
+		emit(cfg, "gen:hugeloop", evs)
 		return
 	}
 	r := rand.New(rand.NewSource(seed))
